@@ -326,6 +326,15 @@ class MementoFunction(MementoFunctionBase):
                 )
             )
             Environment.register_function(cluster_name, self)
+            # The version computed while registering saw the module as it was *before* this
+            # definition's own name was bound (a function that reaches itself saw the previous
+            # definition, a placeholder or nothing). Make sure it is computed again, on first
+            # use, now that the definition is complete.
+            MementoFunction.increment_global_fn_generation(
+                reason="finished registering function {}".format(
+                    self.qualified_name_without_version
+                )
+            )
 
     def clone_with(
         self,
